@@ -306,6 +306,12 @@ theorem triangular_spec (size : Nat) (a b scale shift : Rat) (hab : a < b)
 
 example : (triangular 5 (-2) 2 1 0).map Prod.snd = [0, 3 / 14, 4 / 7, 3 / 14, 0] := by decide +kernel
 
+example : 0 < triangularPdf (-2) 2 (-5 / 4) := by
+  rw [triangularPdf_pos_iff (-2) 2 (-5 / 4) (by norm_num)]; norm_num
+
+example : ((triangular 4 (-1) 1 1 0).map Prod.snd).sum = 1 :=
+  (triangular_spec 4 (-1) 1 1 0 (by norm_num) ⟨-2 / 3, by decide +kernel, by norm_num, by norm_num⟩).2.2.1
+
 /-- an ascending `linspace` whose spacing is below `b − a` has a point strictly inside `(a, b)` as soon as the
 interval and the axis overlap -/
 theorem linspace_hits (lo hi a b : Rat) (n : Nat) (hn : 2 ≤ n) (hlh : lo < hi)
@@ -738,6 +744,10 @@ theorem deconvolveSame_fullConv (x psf : List Rat) (h0 : at0 psf 0 ≠ 0) (hne :
   congr 2
   omega
 
+example : deconvolveSame (fullConv [0, 3, 0, 1] [2, 1]) [2, 1] = [0, 3, 3, 2, 1] := by
+  have := deconvolveSame_fullConv [0, 3, 0, 1] [2, 1] (by norm_num [at0]) (by simp) (by simp)
+  rw [this]; decide +kernel
+
 /-- REGRESSION (the mechanism before /repo 5e4648b, `np.trim_zeros` before the slice): a signal with an exactly
 zero leading sample comes back shifted by one — the first sample is lost, a later one appears in its place -/
 theorem deconvolve_old_shifts :
@@ -767,6 +777,10 @@ theorem deconvolveOld_fullConv (x psf : List Rat) (h0 : at0 psf 0 ≠ 0) (h2 : 2
   congr 1
   omega
 
+
+example : deconvolveOld (fullConv [5, 0, 0, 1, 9] [2, 1]) [2, 1] = [5, 0, 0] := by
+  have := deconvolveOld_fullConv [5, 0, 0, 1, 9] [2, 1] (by norm_num [at0]) (by simp) (by simp) (by simp)
+  simpa using this
 
 /-! ## error function approximation -/
 
@@ -866,6 +880,12 @@ theorem erfinv_domain {K : Type} [Field K] [LinearOrder K] [IsStrictOrderedRing 
       mul_self_le_mul_self hs0 hle
     nlinarith
   exact ⟨hd, hpos, div_pos (by linarith) hpos⟩
+
+example : -(-16 : Rat) / (3 + 5) = -3 + 5 := erfinv_conjugate 3 (-16) 5 (by norm_num) (by norm_num)
+
+/-- the real square root meets the hypothesis of `erfinv_domain` -/
+example (tt1 tt2 : ℝ) (h2 : tt2 < 0) : 0 < -tt2 / (tt1 + Real.sqrt (tt1 * tt1 - tt2)) :=
+  (erfinv_domain tt1 tt2 Real.sqrt (fun t ht => ⟨Real.sqrt_nonneg t, Real.mul_self_sqrt ht⟩) h2).2.2
 
 example : erfinvWith (K := Rat) ⟨((↑) : Rat → Rat), 3, fun _ => 0, fun t => t⟩ (1 / 2) = 0 := by
   norm_num [erfinvWith, sgn]
